@@ -238,6 +238,10 @@ def replay_finding(rp, f):
     pre = bool(set(on) & set(PRE_PROVIDER)) or inp['carrier'] in ('none', 'both')
     consulted = bool(ev)
     bad = (pre and consulted) or (not pre and not consulted) or ev.count('call') > 1
+    # a call that is not directly preceded by a successful readiness signal
+    for i, e in enumerate(ev):
+        if e == 'call' and (i == 0 or ev[i - 1] != 'poll_ready:ready'):
+            bad = True
     provider_failed = script[3] is not None or script[5] != 'ok'
     if 'ok' in res and (provider_failed or 'signature' in on):
         bad = True
@@ -285,7 +289,8 @@ def conformance(prog, rp, seed, tier):
             res = nat.get('result', {})
             nk = 'ok' if 'ok' in res else res.get('err', {}).get('kind', 'panic')
             nev = nat.get('provider', {}).get('events', [])
-            if nk != kind_ or nev != events:
+            # the native test provider does not label a premature call: compare modulo that label (the symbolic part reports it)
+            if nk != kind_ or nev != [('call' if e == 'call-before-ready' else e) for e in events]:
                 mism.append({'script': script, 'on': on, 'mirse': [kind_, events], 'native': [nk, nev]})
     return n, mism
 
